@@ -92,6 +92,9 @@ func (e *Entry) norm() {
 			e.Failover[i].Targets = []Ref{}
 		}
 	}
+	// Subsets and Failover are maps in the real entry: canonical order by key
+	sort.Strings(e.Subsets)
+	sort.SliceStable(e.Failover, func(i, j int) bool { return e.Failover[i].Key < e.Failover[j].Key })
 }
 
 // NormEntry makes every list field non-nil (JSON [] instead of null).
